@@ -160,7 +160,7 @@ func init() {
 }
 
 func checkC15(rep *Report, rng *Rng, tier string) {
-	n := 300
+	n := 400
 	if tier == "thorough" {
 		n = 5000
 	}
